@@ -584,7 +584,9 @@ def part_from_matchfile(
             warnings.warn(
                 "Calculated `onset_divs` does not match `OnsetInBeats` " "information!."
             )
-            onset_divs = onset_in_divs[ni]
+            # (OnsetInBeats is a rounded decimal number: keep the timeline
+            # on integer divisions)
+            onset_divs = int(round(onset_in_divs[ni]))
         assert onset_divs >= 0
         assert np.isclose(onset_divs, onset_in_divs[ni], atol=divs * 0.01)
         is_tied = False
